@@ -3538,7 +3538,26 @@ impl ContinuityStore {
     }
 
     fn load_next_seq_for(&self, continuity_id: &str) -> Result<u64, io::Error> {
+        const TRUTH_TAIL_BYTES: u64 = 1024 * 1024;
+
         if let Ok(Some(last_seq)) = self.stream_cache.try_read_last_seq(continuity_id) {
+            // The sidecar is written after the truth log. If the authority died in between, the
+            // sidecar is a frame behind: trusting it would reuse a seq and break replay for good.
+            // Reconcile with the tail of the truth log, and rebuild the caches when it is ahead.
+            let truth_tail = self
+                .event_log
+                .last_seq_in_tail(StreamKind::Continuity, continuity_id, TRUTH_TAIL_BYTES)
+                .unwrap_or(None);
+            if truth_tail.is_some_and(|truth_seq| truth_seq > last_seq) {
+                let events = self
+                    .event_log
+                    .replay_stream(StreamKind::Continuity, continuity_id)?;
+                if let Some(last) = events.last() {
+                    self.stream_cache
+                        .rebuild_best_effort(continuity_id, &events);
+                    return Ok(last.seq.saturating_add(1));
+                }
+            }
             return Ok(last_seq.saturating_add(1));
         }
 
